@@ -7,8 +7,9 @@ Model: `HioModel/Req/Model.lean` (`Requester.build`, `updateQargsQuery`, `packHe
 parse_qsl at byte level; always-safe set, METHODS, default header values regenerated from the
 live modules into `Gen/HttpConsts.lean`).  "Byte string" = list of numbers `< 256` (`BytesOk`).
 
-Full statement (composed): for every well-formed spec, `recover (build spec) = view spec`.
-It FAILS on two characterised sets, kept as recorded known findings and proved to fail here:
+Full statement (composed): for every spec in the quantifier, `recover (build spec) = view spec`
+(`request_roundtrip_partial`, proved for every `WF` spec).
+It FAILS on two characterised sets, excluded by `WF`, kept as recorded known findings and proved to fail here:
  * a header name sent twice (F50 / C14-K1): `repeated_header_keeps_last`;
  * TAB / CR / LF in the path (C14-K2): `path_tab_is_dropped`.
 -/
@@ -46,6 +47,85 @@ the original ignoring case and the untouched value — for every name without `:
 theorem header_line_roundtrip (n v : Bytes) (h : 58 ∉ n) :
     ∃ k, split2 58 32 (packHeader n v) = some (k, v) ∧ lower k = lower n :=
   ⟨title n, split_packHeader n v h, lower_title n⟩
+
+/-! ### the composed theorem -/
+
+/-- a request inside C14's quantifier.  Every clause is a decidable condition on the spec:
+the method is an HTTP method (any case); the path is a path (`pathOk`: one leading `/`, no `?`/`#`), any bytes, but no
+TAB/CR/LF (C14-K2); query keys and values are arbitrary byte strings; header names have no `:`/LF and values no LF; no
+header name goes on the wire twice (F50 / C14-K1), at most 100 fields, the client does not announce chunking, and an
+explicit Content-Length states the length of the body that is sent; forms are not multipart. -/
+structure WF (s : Spec) : Prop where
+  method : upper s.method ∈ Gen.methods
+  ascii : isAscii s.method = true
+  path : pathOk s.path = true
+  pathBytes : BytesOk s.path
+  pathClean : stripUnsafe s.path = s.path
+  query : ∀ kv ∈ s.qargs, BytesOk kv.1 ∧ BytesOk kv.2
+  notMultipart : (!isGet s && s.bkind == 2 && multipart s) = false
+  names : ∀ h ∈ builtHeaders s, 10 ∉ h.1 ∧ 58 ∉ h.1
+  values : ∀ h ∈ builtHeaders s, 10 ∉ h.2
+  distinct : ((builtHeaders s).map (fun h => lower h.1)).Nodup
+  few : (builtHeaders s).length ≤ 100
+  noTe : hasKey (lit "transfer-encoding") (builtHeaders s) = false
+  length : LengthOk (builtHeaders s) (builtBody s)
+
+/-- what the server must recover -/
+def view (s : Spec) : View := ⟨upper s.method, s.path, s.qargs, lowered (builtHeaders s), builtBody s⟩
+
+/-- C14 (composed; `_partial` because `WF` carries the two defect guards `distinct` (F50) and `pathClean` (C14-K2) next to
+the clauses that merely spell out the property's quantifier): for EVERY well-formed request spec the bytes `Requester.build` produces are parsed by
+`Requestant` (+ `parse_qsl` on the query string) back to exactly the same method, path, query-argument list, header
+fields (names ignoring case, values untouched, in wire order) and body bytes -/
+theorem request_roundtrip_partial (s : Spec) (wf : WF s) :
+    ∃ msg, build s = .ok msg ∧ recover msg = .ok (view s) := by
+  have hne : s.path ≠ [] := by
+    intro e; have := wf.path; rw [e] at this; exact absurd this (by decide)
+  refine ⟨_, build_eq s hne wf.pathClean wf.path wf.ascii wf.notMultipart, ?_⟩
+  exact recover_wire (upper s.method) s.path s.qargs (builtHeaders s) (builtBody s)
+    ⟨wf.method, wf.path, wf.pathBytes, wf.query, wf.names, wf.values, wf.distinct, wf.few, wf.noTe, wf.length⟩
+
+/-- … and the caller's own header fields are among those recovered, value untouched (a Content-Type is replaced only when
+a JSON / form body dictates it) -/
+theorem spec_headers_recovered (s : Spec) (wf : WF s) (x : Bytes × Bytes) (hx : x ∈ s.headers)
+    (hct : (lower x.1 == lit "content-type") = false ∨ isGet s = true ∨ (s.bkind != 1 && s.bkind != 2) = true) :
+    (lower x.1, x.2) ∈ (view s).headers := by
+  have := spec_header_on_wire s x hx hct
+  exact List.mem_map.mpr ⟨x, this, rfl⟩
+
+/-- the body recovered is the body the client meant to send: raw bytes / JSON text as given, nothing with GET -/
+theorem body_recovered (s : Spec) :
+    (view s).body = if isGet s then [] else if s.bkind == 2 then formBody s.form else s.raw := by
+  unfold view builtBody
+  by_cases hg : isGet s = true
+  · simp [hg]
+  · by_cases h1 : (s.bkind == 1) = true
+    · have : (s.bkind == 2) = false := by
+        have : s.bkind = 1 := by simpa using h1
+        simp [this]
+      simp [hg, h1, this]
+    · simp [hg, h1]
+
+/-- F50 / C14-K1 (known finding, replayed on the implementation): a header sent twice keeps only its last value -/
+theorem repeated_header_keeps_last :
+    let s : Spec := ⟨lit "GET", lit "/p", [], [(lit "x-one", lit "1"), (lit "X-ONE", lit "2")], 0, [], [], lit "h:1"⟩
+    ∃ msg v, build s = .ok msg ∧ recover msg = .ok v ∧ getKey (lit "x-one") v.headers = some (lit "2") ∧
+      (lit "x-one", lit "1") ∉ v.headers := by
+  refine ⟨_, _, rfl, rfl, ?_, ?_⟩ <;> decide
+
+/-- C14-K2 (known finding, replayed on the implementation): TAB / CR / LF in the path are dropped before quoting -/
+theorem path_tab_is_dropped :
+    let s : Spec := ⟨lit "GET", [47, 112, 9, 113, 10], [], [], 0, [], [], lit "h:1"⟩
+    ∃ msg v, build s = .ok msg ∧ recover msg = .ok v ∧ v.path = lit "/pq" := by
+  exact ⟨_, _, rfl, rfl, by decide⟩
+
+/-- non-vacuity: a spec with mixed-case method, non-ASCII path bytes, reserved characters in query keys and values, several
+headers (one overriding a default) satisfies `WF` -/
+example : WF ⟨lit "get", lit "/a b/" ++ [195, 169, 37], [(lit "k 1", lit "v&=1"), ([], []), ([228, 184, 173], lit "+")],
+    [(lit "X-One", lit " v "), (lit "accept-encoding", lit "gzip"), (lit "Cookie", [255, 0])], 0, lit "dropped", [], lit "example.com:8080"⟩ := by
+  refine ⟨by decide, by decide, by decide, by unfold BytesOk; decide, by decide, ?_, by decide, by decide, by decide, by decide,
+    by decide, by decide, by decide⟩
+  unfold BytesOk; decide
 
 /-! non-vacuity / concrete instances (tests, not the unbounded claims) -/
 example : BytesOk (lit "a b/%+&=~" ++ [0, 255, 195, 169]) := by unfold BytesOk; decide
